@@ -33,7 +33,9 @@ use std::sync::Arc;
 
 use textwrap::core::{break_words, display_width, Word};
 use textwrap::word_splitters::split_words;
-use textwrap::wrap_algorithms::{wrap_first_fit, wrap_optimal_fit, Penalties};
+use textwrap::wrap_algorithms::wrap_first_fit;
+#[cfg(feature = "full")]
+use textwrap::wrap_algorithms::{wrap_optimal_fit, Penalties};
 use textwrap::{
     dedent, fill, fill_inplace, indent, refill, unfill, wrap, wrap_columns, LineEnding, Options,
     WordSeparator, WordSplitter, WrapAlgorithm,
@@ -94,6 +96,29 @@ fn custom_algorithm<'a, 'b>(words: &'b [Word<'a>], line_widths: &'b [usize]) -> 
     wrap_first_fit(words, &f)
 }
 
+/// Optimal-fit exists only with the `smawk` feature (scratch-crate feature `full`).
+#[cfg(feature = "full")]
+pub fn optimal_alg() -> WrapAlgorithm {
+    WrapAlgorithm::new_optimal_fit()
+}
+#[cfg(not(feature = "full"))]
+pub fn optimal_alg() -> WrapAlgorithm {
+    WrapAlgorithm::FirstFit
+}
+/// Line lengths of the optimal-fit arrangement ("overflow" for `OverflowError`,
+/// "n/a" in a build without the `smawk` feature).
+#[cfg(feature = "full")]
+pub fn optimal_shape<T: textwrap::core::Fragment>(frags: &[T], lws: &[f64]) -> String {
+    match wrap_optimal_fit(frags, lws, &Penalties::new()) {
+        Ok(ls) => ls.iter().map(|l| l.len().to_string()).collect::<Vec<_>>().join(","),
+        Err(_) => "overflow".into(),
+    }
+}
+#[cfg(not(feature = "full"))]
+pub fn optimal_shape<T: textwrap::core::Fragment>(_frags: &[T], _lws: &[f64]) -> String {
+    "n/a".into()
+}
+
 /// A caller-supplied `Fragment` implementation: user code that runs inside
 /// `wrap_first_fit` / `wrap_optimal_fit` and can therefore be a fault site.
 #[derive(Debug)]
@@ -131,9 +156,9 @@ fn custom_fragments(c: &Call, buf: &str) -> String {
     let w = c.opt.width.min(1 << 20) as f64 * lw_scale;
     let lws = [w / 2.0, w / 3.0, w, w * 0.75];
     let shape = |ls: &[&[UserFragment]]| ls.iter().map(|l| l.len().to_string()).collect::<Vec<_>>().join(",");
-    let of = wrap_optimal_fit(&frags, &lws, &Penalties::new());
+    let of = optimal_shape(&frags, &lws);
     let ff = wrap_first_fit(&frags, &lws);
-    format!("of[{}] ff[{}]", of.as_ref().map(|l| shape(l)).unwrap_or_else(|_| "overflow".into()), shape(&ff))
+    format!("of[{}] ff[{}]", of, shape(&ff))
 }
 
 // ---------------------------------------------------------------------------
@@ -160,7 +185,7 @@ impl Opt {
         let mut o = Options::new(self.width);
         o.wrap_algorithm = match self.alg {
             0 => WrapAlgorithm::FirstFit,
-            1 => WrapAlgorithm::new_optimal_fit(),
+            1 => optimal_alg(),
             _ => WrapAlgorithm::Custom(custom_algorithm),
         };
         o.word_separator = match self.sep {
@@ -285,9 +310,9 @@ fn execute(c: &Call, buf: &mut String) -> String {
             let words: Vec<Word<'_>> = o.word_separator.find_words(buf).collect();
             let w = c.opt.width.min(1 << 20) as f64;
             let ff = wrap_first_fit(&words, &[w / 2.0, w / 3.0, w, w * 0.75]);
-            let of = wrap_optimal_fit(&words, &[w / 2.0, w / 3.0, w, w * 0.75], &Penalties::new());
+            let of = optimal_shape(&words, &[w / 2.0, w / 3.0, w, w * 0.75]);
             let shape = |ls: &[&[Word<'_>]]| ls.iter().map(|l| l.len().to_string()).collect::<Vec<_>>().join(",");
-            format!("ff[{}] of[{}]", shape(&ff), of.as_ref().map(|l| shape(l)).unwrap_or_else(|_| "overflow".into()))
+            format!("ff[{}] of[{}]", shape(&ff), of)
         }
         Kind::CustomFragments => custom_fragments(c, buf),
     }
@@ -499,9 +524,9 @@ fn execute_ro(c: &Call, buf: &str, o: &Options<'static>) -> String {
             let words: Vec<Word<'_>> = o.word_separator.find_words(buf).collect();
             let w = c.opt.width.min(1 << 20) as f64;
             let ff = wrap_first_fit(&words, &[w / 2.0, w / 3.0, w, w * 0.75]);
-            let of = wrap_optimal_fit(&words, &[w / 2.0, w / 3.0, w, w * 0.75], &Penalties::new());
+            let of = optimal_shape(&words, &[w / 2.0, w / 3.0, w, w * 0.75]);
             let shape = |ls: &[&[Word<'_>]]| ls.iter().map(|l| l.len().to_string()).collect::<Vec<_>>().join(",");
-            format!("ff[{}] of[{}]", shape(&ff), of.as_ref().map(|l| shape(l)).unwrap_or_else(|_| "overflow".into()))
+            format!("ff[{}] of[{}]", shape(&ff), of)
         }
         Kind::CustomFragments => custom_fragments(c, buf),
         Kind::Wrap | Kind::FillInplace => unreachable!(),
